@@ -6,12 +6,11 @@ def spec(tier):
     obs = []
     F = lambda k: {f"r{k}": 0}      # fixed-memory slot: read 0 unless symbolic
     # A1: container run vs oracle.  layout = operators -> segment slots
-    layouts = {
-        "1op_1seg": [[0]], "2op": [[0], [1]], "1op_2seg": [[0, 1]], "2op_2seg_first": [[0, 1], [2]],
-        "3op": [[0], [1], [2]], "2op_2seg_last": [[0], [1, 2]],
-    }
+    layouts = {"1op_1seg": [[0]], "2op": [[0], [1]], "1op_2seg": [[0, 1]]}
     if th:
-        layouts.update({"2op_2x2": [[0, 1], [2, 3]], "4op": [[0], [1], [2], [3]]})
+        layouts.update({"2op_2seg_first": [[0, 1], [2]], "3op": [[0], [1], [2]], "2op_2seg_last": [[0], [1, 2]],
+                        "2op_2x2": [[0, 1], [2, 3]], "4op": [[0], [1], [2], [3]]})
+    RMAX = 65 if th else 45
     for name, lay in layouts.items():
         nslots = max(max(op) for op in lay) + 1
         # (a) fixed-memory segments with symbolic durations (incl. 0 ticks) and memory
@@ -19,21 +18,35 @@ def spec(tier):
         for k in range(nslots):
             sym[f"d{k}"] = I(0, 2)
             sym[f"m{k}"] = I(0, 7)
-        obs.append(CH(name=f"run_fixed_{name}", harness="c05.container_run", sym=sym, fixed=dict(layout=lay), timeout=600))
+        if nslots <= 3:
+            obs.append(CH(name=f"run_fixed_{name}", harness="c05.container_run", sym=sym, fixed=dict(layout=lay), timeout=900))
+        else:
+            for d0 in (0, 1, 2):
+                s2 = dict(sym)
+                s2.pop("d0")
+                obs.append(CH(name=f"run_fixed_{name}_d{d0}", harness="c05.container_run", sym=s2, fixed=dict(layout=lay, d0=d0), timeout=1800))
         # (b) growing-memory segments: read sizes symbolic (any integer GB, so partial ticks), CPU time symbolic
-        sym = dict(alloc=I(1, 70))
-        for k in range(nslots):
-            sym[f"r{k}"] = I(0, 65)
-            sym[f"d{k}"] = I(0, 2)
-        if nslots <= 2 or th:
-            obs.append(CH(name=f"run_growing_{name}", harness="c05.container_run", sym=sym, fixed=dict(layout=lay), timeout=900))
-        # (c) mixed: slot 0 growing, others fixed
+        if nslots == 1:
+            obs.append(CH(name=f"run_growing_{name}", harness="c05.container_run",
+                          sym=dict(alloc=I(1, RMAX + 5), r0=I(0, RMAX), d0=I(0, 2)), fixed=dict(layout=lay), timeout=900))
+        elif nslots == 2 or th:
+            # one condition per number of I/O ticks of the first slot keeps each condition small
+            for (lo, hi) in ((0, 19), (20, 39), (40, RMAX)):
+                sym = dict(alloc=I(1, RMAX + 5), r0=I(lo, hi), d0=I(0, 1), r1=I(0, RMAX), d1=I(0, 1))
+                fixed = dict(layout=lay)
+                for k in range(2, nslots):
+                    fixed[f"m{k}"] = 3
+                    fixed[f"d{k}"] = 1
+                obs.append(CH(name=f"run_growing_{name}_r{lo}", harness="c05.container_run", sym=sym, fixed=fixed, timeout=1800 if th else 900))
+        # (c) mixed: slot 0 growing, slot 1 fixed
         if nslots >= 2:
-            sym = dict(alloc=I(1, 50), r0=I(0, 45), d0=I(0, 2))
-            for k in range(1, nslots):
-                sym[f"d{k}"] = I(0, 2)
-                sym[f"m{k}"] = I(0, 51)
-            obs.append(CH(name=f"run_mixed_{name}", harness="c05.container_run", sym=sym, fixed=dict(layout=lay), timeout=900))
+            for (lo, hi) in ((0, 19), (20, RMAX)):
+                sym = dict(alloc=I(1, 50), r0=I(lo, hi), d0=I(0, 1), d1=I(0, 2), m1=I(0, 51))
+                fixed = dict(layout=lay)
+                for k in range(2, nslots):
+                    fixed[f"m{k}"] = 3
+                    fixed[f"d{k}"] = 1
+                obs.append(CH(name=f"run_mixed_{name}_r{lo}", harness="c05.container_run", sym=sym, fixed=fixed, timeout=1800 if th else 900))
     tsym = dict(alloc=I(1, 50), r0=I(0, 45), d0=I(0, 2), d1=I(0, 2), m1=I(0, 51))
     for w in ("oom", "success", "zero"):
         obs.append(twin(f"run_{w}", "c05.container_run", tsym, dict(layout=[[0], [1]]), w))
@@ -42,7 +55,6 @@ def spec(tier):
         obs.append(KN(name=f"cpu_ticks_{law}", func="vf.kernels.c05:cpu_ticks", args=dict(law=law, tier=tier), timeout=900 if th else 300))
     obs.append(KN(name="io_ticks", func="vf.kernels.c05:io_ticks", args=dict(tier=tier), timeout=600))
     obs.append(KN(name="growth", func="vf.kernels.c05:growth", args=dict(tier=tier), timeout=600))
-    obs.append(KN(name="structure", func="vf.kernels.c05:structure", args=dict(), timeout=120))
     return PropSpec(
         property_id="C05", obligations=obs,
         functions=["Container._tick_generator", "Container.tick", "Container.kill", "Container.set_current_memory_usage",
